@@ -41,25 +41,35 @@ func (p *pool) header() string {
 	return b.String()
 }
 
-// packed prints a Go string as Run.packed: its length and the bytes 7 per uint63
-// (little endian).
+// intList prints a wire list of primitive integers.
+func intList(xs []uint64) string {
+	var b strings.Builder
+	for _, x := range xs {
+		fmt.Fprintf(&b, "(IC %d ", x)
+	}
+	b.WriteString("IN")
+	b.WriteString(strings.Repeat(")", len(xs)))
+	return b.String()
+}
+
+// packedStr prints the length of a Go string and its bytes, 7 per uint63 (little endian).
 func packedStr(s string) string {
-	var cs []string
+	var cs []uint64
 	for i := 0; i < len(s); i += 7 {
 		var x uint64
 		for j := 0; j < 7 && i+j < len(s); j++ {
 			x |= uint64(s[i+j]) << (8 * uint(j))
 		}
-		cs = append(cs, fmt.Sprint(x))
+		cs = append(cs, x)
 	}
-	return fmt.Sprintf("(P %d [%s]%%uint63)", len(s), strings.Join(cs, ";"))
+	return fmt.Sprintf("%d %s", len(s), intList(cs))
 }
 
 // obsList prints the observed strings of one case: a string identical to an earlier one
 // of the case is a back reference, a string of more than 512 bytes is reported by its
 // length, a rolling checksum and its first 511 bytes.
 func obsList(hs []string, stats map[string]int) string {
-	out := make([]string, len(hs))
+	var b strings.Builder
 	for i, h := range hs {
 		prev := -1
 		for j := 0; j < i; j++ {
@@ -70,21 +80,23 @@ func obsList(hs []string, stats map[string]int) string {
 		}
 		switch {
 		case prev >= 0:
-			out[i] = fmt.Sprintf("R %d", prev)
+			fmt.Fprintf(&b, "(OR %d ", prev)
 			stats["observed_strings_same_as_earlier"]++
 		case len(h) > 512:
 			var roll uint64
 			for k := 0; k < len(h); k++ {
 				roll = (roll*1000003 + uint64(h[k])) & (1<<63 - 1)
 			}
-			out[i] = fmt.Sprintf("D %d %d%%uint63 %s", len(h), roll, packedStr(h[:511]))
+			fmt.Fprintf(&b, "(OD %d %d %s ", len(h), roll, packedStr(h[:511]))
 			stats["observed_strings_by_length_checksum_prefix"]++
 		default:
-			out[i] = "X " + packedStr(h)
+			fmt.Fprintf(&b, "(OX %s ", packedStr(h))
 			stats["observed_strings_exact"]++
 		}
 	}
-	return vh.CoqList(out)
+	b.WriteString("ON")
+	b.WriteString(strings.Repeat(")", len(hs)))
+	return b.String()
 }
 
 // namer numbers the pointers the model distinguishes: user types, objects, views.
@@ -154,11 +166,13 @@ type printer struct {
 }
 
 func (pr *printer) strList(xs []string) string {
-	ss := make([]string, len(xs))
-	for i, x := range xs {
-		ss[i] = pr.p.s(x)
+	var b strings.Builder
+	for _, x := range xs {
+		fmt.Fprintf(&b, "(SC %s ", pr.p.s(x))
 	}
-	return vh.CoqList(ss)
+	b.WriteString("SN")
+	b.WriteString(strings.Repeat(")", len(xs)))
+	return b.String()
 }
 
 func otherOfValidation(v *expr.ValidationExpr) string {
@@ -195,8 +209,9 @@ func otherOfAtt(a *expr.AttributeExpr) string {
 }
 
 func (pr *printer) ainfo(a *expr.AttributeExpr) string {
-	if len(a.Meta) == 0 && a.Validation == nil && a.Description == "" && a.Docs == nil && a.DefaultValue == nil && len(a.UserExamples) == 0 {
-		return "ai0"
+	plain := a.Validation == nil && a.Description == "" && a.Docs == nil && a.DefaultValue == nil && len(a.UserExamples) == 0
+	if len(a.Meta) == 0 && plain {
+		return "I0"
 	}
 	keys := vh.SortedKeys(a.Meta)
 	if pr.r != nil {
@@ -205,15 +220,20 @@ func (pr *printer) ainfo(a *expr.AttributeExpr) string {
 			keys[i], keys[j] = keys[j], keys[i]
 		}
 	}
-	ms := make([]string, len(keys))
-	for i, k := range keys {
-		ms[i] = fmt.Sprintf("(%s, %s)", pr.p.s(k), pr.strList(a.Meta[k]))
+	var mb strings.Builder
+	for _, k := range keys {
+		fmt.Fprintf(&mb, "(MC %s %s ", pr.p.s(k), pr.strList(a.Meta[k]))
 	}
-	val := "None"
+	mb.WriteString("MN")
+	mb.WriteString(strings.Repeat(")", len(keys)))
+	if plain {
+		return "(IM " + mb.String() + ")"
+	}
+	hasval, req, vother := "false", "SN", "[]"
 	if v := a.Validation; v != nil {
-		val = fmt.Sprintf("(Some (Val %s %s))", pr.strList(v.Required), pr.p.s(otherOfValidation(v)))
+		hasval, req, vother = "true", pr.strList(v.Required), pr.p.s(otherOfValidation(v))
 	}
-	return fmt.Sprintf("(AI %s %s %s %s %s)", vh.CoqList(ms), val, pr.p.s(a.Description), vh.CoqBool(a.Docs != nil), pr.p.s(otherOfAtt(a)))
+	return fmt.Sprintf("(IF %s %s %s %s %s %s %s)", mb.String(), hasval, req, vother, pr.p.s(a.Description), vh.CoqBool(a.Docs != nil), pr.p.s(otherOfAtt(a)))
 }
 
 func primCtor(p expr.Primitive) string {
@@ -247,93 +267,197 @@ func primCtor(p expr.Primitive) string {
 }
 
 func (pr *printer) fields(nats []*expr.NamedAttributeExpr) string {
-	fs := make([]string, len(nats))
-	for i, nat := range nats {
-		fs[i] = fmt.Sprintf("F %s %s %s", pr.p.s(nat.Name), pr.ainfo(nat.Attribute), pr.ty(nat.Attribute.Type))
+	var b strings.Builder
+	for _, nat := range nats {
+		fmt.Fprintf(&b, "(FC %s %s %s ", pr.p.s(nat.Name), pr.ainfo(nat.Attribute), pr.ty(nat.Attribute.Type))
 	}
-	return vh.CoqList(fs)
+	b.WriteString("FN")
+	b.WriteString(strings.Repeat(")", len(nats)))
+	return b.String()
 }
 
 func (pr *printer) ty(dt expr.DataType) string {
 	switch t := dt.(type) {
 	case expr.Primitive:
-		return "(TPrim " + primCtor(t) + ")"
+		return "(Wp " + primCtor(t) + ")"
 	case *expr.Array:
-		return fmt.Sprintf("(TArr %s %s)", pr.ainfo(t.ElemType), pr.ty(t.ElemType.Type))
+		return fmt.Sprintf("(Wa %s %s)", pr.ainfo(t.ElemType), pr.ty(t.ElemType.Type))
 	case *expr.Map:
-		return fmt.Sprintf("(TMap %s %s %s %s)", pr.ainfo(t.KeyType), pr.ty(t.KeyType.Type), pr.ainfo(t.ElemType), pr.ty(t.ElemType.Type))
+		return fmt.Sprintf("(Wm %s %s %s %s)", pr.ainfo(t.KeyType), pr.ty(t.KeyType.Type), pr.ainfo(t.ElemType), pr.ty(t.ElemType.Type))
 	case *expr.Object:
-		return fmt.Sprintf("(TObj %d %s)", pr.n.obj[t], pr.fields(*t))
+		return fmt.Sprintf("(Wo %d %s)", pr.n.obj[t], pr.fields(*t))
 	case *expr.Union:
-		return fmt.Sprintf("(TUnion %s %s)", pr.p.s(t.TypeName), pr.fields(t.Values))
+		return fmt.Sprintf("(Wu %s %s)", pr.p.s(t.TypeName), pr.fields(t.Values))
 	case expr.UserType:
-		return fmt.Sprintf("(TUser %d)", pr.n.ut[t])
+		return fmt.Sprintf("(Wr %d)", pr.n.ut[t])
 	}
 	panic(fmt.Sprintf("ty: %T", dt))
 }
 
+// utdef prints the arguments of EC after the id.
 func (pr *printer) utdef(u expr.UserType) string {
 	switch t := u.(type) {
 	case *expr.UserTypeExpr:
-		return fmt.Sprintf("UT %s %s %s %s None", pr.p.s(t.TypeName), pr.p.s(t.UID), pr.ainfo(t.AttributeExpr), pr.ty(t.AttributeExpr.Type))
+		return fmt.Sprintf("%s %s %s %s RN", pr.p.s(t.TypeName), pr.p.s(t.UID), pr.ainfo(t.AttributeExpr), pr.ty(t.AttributeExpr.Type))
 	case *expr.ResultTypeExpr:
-		vids := make([]int, len(t.Views))
+		vids := make([]uint64, len(t.Views))
 		for i, v := range t.Views {
-			vids[i] = pr.n.view[v]
+			vids[i] = uint64(pr.n.view[v])
 		}
-		return fmt.Sprintf("UT %s %s %s %s (Some (RT %s %s %s))", pr.p.s(t.TypeName), pr.p.s(t.UID), pr.ainfo(t.AttributeExpr), pr.ty(t.AttributeExpr.Type),
-			pr.p.s(t.Identifier), pr.p.s(t.ContentType), vh.CoqNatList(vids))
+		return fmt.Sprintf("%s %s %s %s (RS %s %s %s)", pr.p.s(t.TypeName), pr.p.s(t.UID), pr.ainfo(t.AttributeExpr), pr.ty(t.AttributeExpr.Type),
+			pr.p.s(t.Identifier), pr.p.s(t.ContentType), intList(vids))
 	}
 	panic(fmt.Sprintf("utdef: %T", u))
 }
 
-// env prints the user types with the given numbers.
-func (pr *printer) env(ids []int, byID map[int]expr.UserType) string {
-	sort.Ints(ids)
-	es := make([]string, len(ids))
-	for i, id := range ids {
-		es[i] = fmt.Sprintf("(%d, %s)", id, pr.utdef(byID[id]))
-	}
-	return vh.CoqList(es)
-}
-
+// envAll prints the user types the namer knows, by increasing number.
 func (pr *printer) envAll() string {
-	ids := make([]int, 0, len(pr.n.utList))
+	ids := make([]int, 0, len(pr.n.ut))
 	byID := map[int]expr.UserType{}
 	for u, id := range pr.n.ut {
 		ids = append(ids, id)
 		byID[id] = u
 	}
-	return pr.env(ids, byID)
-}
-
-func (pr *printer) viewsAll() string {
-	type kv struct {
-		id int
-		v  *expr.ViewExpr
+	sort.Ints(ids)
+	var b strings.Builder
+	for _, id := range ids {
+		fmt.Fprintf(&b, "(EC %d %s ", id, pr.utdef(byID[id]))
 	}
-	var vs []kv
-	for v, id := range pr.n.view {
-		vs = append(vs, kv{id, v})
-	}
-	sort.Slice(vs, func(i, j int) bool { return vs[i].id < vs[j].id })
-	es := make([]string, len(vs))
-	for i, e := range vs {
-		parent := -1
-		if e.v.Parent != nil {
-			if id, ok := pr.n.ut[e.v.Parent]; ok {
-				parent = id
-			}
-		}
-		if parent < 0 {
-			panic("view parent not numbered")
-		}
-		es[i] = fmt.Sprintf("(%d, VW %s %s %s %d)", e.id, pr.p.s(e.v.Name), pr.ainfo(e.v.AttributeExpr), pr.ty(e.v.AttributeExpr.Type), parent)
-	}
-	return vh.CoqList(es)
+	b.WriteString("EN")
+	b.WriteString(strings.Repeat(")", len(ids)))
+	return b.String()
 }
 
 var allFlags = [][3]bool{
 	{false, false, false}, {false, false, true}, {false, true, false}, {false, true, true},
 	{true, false, false}, {true, false, true}, {true, true, false}, {true, true, true},
+}
+
+// pairing walks an original and its copy in lockstep and records which pointer of the
+// copy stands for which pointer of the original.
+type pairing struct {
+	ut  map[expr.UserType]expr.UserType
+	obj map[*expr.Object]*expr.Object
+	err string
+}
+
+func pairUp(o, c expr.DataType) *pairing {
+	p := &pairing{ut: map[expr.UserType]expr.UserType{}, obj: map[*expr.Object]*expr.Object{}}
+	p.walk(o, c)
+	return p
+}
+
+func (p *pairing) named(os, cs []*expr.NamedAttributeExpr) {
+	if len(os) != len(cs) {
+		p.err = "attribute lists of different length"
+		return
+	}
+	for i := range os {
+		if os[i].Name != cs[i].Name {
+			p.err = "attribute names differ"
+			return
+		}
+		p.walk(os[i].Attribute.Type, cs[i].Attribute.Type)
+	}
+}
+
+func (p *pairing) walk(o, c expr.DataType) {
+	if p.err != "" {
+		return
+	}
+	switch to := o.(type) {
+	case expr.Primitive:
+		if tc, ok := c.(expr.Primitive); !ok || tc != to {
+			p.err = "primitive differs"
+		}
+	case *expr.Array:
+		tc, ok := c.(*expr.Array)
+		if !ok {
+			p.err = "kind differs"
+			return
+		}
+		p.walk(to.ElemType.Type, tc.ElemType.Type)
+	case *expr.Map:
+		tc, ok := c.(*expr.Map)
+		if !ok {
+			p.err = "kind differs"
+			return
+		}
+		p.walk(to.KeyType.Type, tc.KeyType.Type)
+		p.walk(to.ElemType.Type, tc.ElemType.Type)
+	case *expr.Object:
+		tc, ok := c.(*expr.Object)
+		if !ok {
+			p.err = "kind differs"
+			return
+		}
+		if prev, seen := p.obj[tc]; seen {
+			if prev != to {
+				p.err = "one Object of the copy stands for two Objects of the original"
+			}
+			return
+		}
+		p.obj[tc] = to
+		p.named(*to, *tc)
+	case *expr.Union:
+		tc, ok := c.(*expr.Union)
+		if !ok {
+			p.err = "kind differs"
+			return
+		}
+		p.named(to.Values, tc.Values)
+	case expr.UserType:
+		tc, ok := c.(expr.UserType)
+		if !ok {
+			p.err = "kind differs"
+			return
+		}
+		if prev, seen := p.ut[tc]; seen {
+			if prev != to {
+				p.err = "one user type of the copy stands for two user types of the original"
+			}
+			return
+		}
+		p.ut[tc] = to
+		p.walk(to.Attribute().Type, tc.Attribute().Type)
+	default:
+		p.err = fmt.Sprintf("unexpected %T", o)
+	}
+}
+
+// dupCase prints one copy case: the original, the offsets, and the copy with every
+// pointer that is new named offset + (number of the pointer it stands for) and every
+// pointer shared with the original named as in the original.
+func dupCase(pl *pool, n *namer, root, cp expr.DataType) (string, string) {
+	offu, offk := n.nextUT, n.nextObj
+	pa := pairUp(root, cp)
+	if pa.err != "" {
+		return "", pa.err
+	}
+	n2 := &namer{ut: map[expr.UserType]int{}, obj: map[*expr.Object]int{}, view: n.view}
+	for c, o := range pa.ut {
+		if id, shared := n.ut[c]; shared {
+			n2.ut[c] = id
+		} else {
+			n2.ut[c] = offu + n.ut[o]
+		}
+	}
+	for c, o := range pa.obj {
+		if k, shared := n.obj[c]; shared {
+			n2.obj[c] = k
+		} else {
+			n2.obj[c] = offk + n.obj[o]
+		}
+	}
+	for _, c := range reach(&expr.AttributeExpr{Type: cp}).uts {
+		if rt, ok := c.(*expr.ResultTypeExpr); ok {
+			for _, v := range rt.Views {
+				if _, ok := n2.view[v]; !ok {
+					return "", "the copy has a view expression that the original does not have"
+				}
+			}
+		}
+	}
+	pr2 := &printer{p: pl, n: n2}
+	return fmt.Sprintf("(DC %d %d %s %s)", offu, offk, pr2.envAll(), pr2.ty(cp)), ""
 }
